@@ -236,7 +236,7 @@ def _(vm, a, ci):
 
 
 # ---- slices
-@path_rx(r'<impl \[\w*\]>::(len|is_empty|iter|iter_mut|first|last|get|get_mut|get_unchecked|get_unchecked_mut|contains|to_vec|split_first|split_last|as_ptr|as_ptr_range|into_vec|concat|join|sort|sort_by|sort_by_key|sort_unstable|sort_unstable_by|sort_unstable_by_key|reverse|split_at|starts_with|ends_with|windows|chunks)')
+@path_rx(r'<impl \[.*?\]>::(len|is_empty|iter|iter_mut|first|last|get|get_mut|get_unchecked|get_unchecked_mut|contains|to_vec|split_first|split_last|as_ptr|as_ptr_range|into_vec|concat|join|sort|sort_by|sort_by_key|sort_unstable|sort_unstable_by|sort_unstable_by_key|reverse|split_at|starts_with|ends_with|windows|chunks)')
 def _(vm, a, ci):
     m = ci.method
     if m == 'into_vec': return Adt('Vec', 0, [vm.ref_get(vm.box_ptr(a[0]))])
